@@ -376,6 +376,10 @@ def run(ix, R):
             R.check('3.interp', 'ALG', site,
                     'otherwise the value is interpolated over exactly the selected native points and their opacities',
                     ok, key=fmt(fl, v3)[:160], detail=fmt(fl, v3)[:300], loc=f.loc())
+    # ---- per-component evaluation must not inherit the grid of an earlier evaluation
+    from rules.common import prepare_each_state
+    with R.guard('5.state', 'DOM', 'taurex/contributions/', 'per-call state of prepare_each'):
+        prepare_each_state(ix, R, '5.state')
     # ---- native grid choice
     site = SM + '::SimpleForwardModel.nativeWavenumberGrid'
     with R.guard('4.native', 'DOM', site, 'native grid'):
